@@ -171,7 +171,7 @@ def values_for(recipe):
 def raw(v):
     if isinstance(v, str):
         return v
-    return json.dumps(v)
+    return json.dumps(v, ensure_ascii=False)
 
 
 def expressible_on_argv(recipe, values):
@@ -245,7 +245,7 @@ def env_for(recipe, values):
     env = {}
     for name, v in values.items():
         d = dest(recipe, name)
-        env["VF_" + d.replace(".", "__").upper()] = raw(v) if not isinstance(v, (list, dict)) else json.dumps(v)
+        env["VF_" + d.replace(".", "__").upper()] = raw(v) if not isinstance(v, (list, dict)) else json.dumps(v, ensure_ascii=False)
     return env
 
 
